@@ -7,53 +7,48 @@ Require Import TL.Model.Inspect TL.Model.InspectSpec TL.Model.InspectCache.
 Section L.
 Variable T : tables.
 
-(* ------------------------------------------------------------------ wrapper chains *)
-Lemma strip_no_wrapper : forall v, no_wrapper v = true -> strip v = v.
-Proof. destruct v; cbn; intro H; try reflexivity; discriminate. Qed.
+(* ------------------------------------------------------------------ wrapper chains (any nesting) *)
+Lemma resolve_idem : forall t, resolve_supertype (resolve_supertype t) = resolve_supertype t.
+Proof. induction t; cbn; auto. Qed.
 
-Lemma resolve_no_wrapper : forall v, no_wrapper v = true -> resolve_supertype v = v.
-Proof. destruct v; cbn; intro H; try reflexivity; discriminate. Qed.
+Lemma resolve_wrappers_resolve : forall t, resolve_wrappers (resolve_supertype t) = resolve_wrappers t.
+Proof. induction t; cbn; auto. Qed.
 
-(* a chain accepted by the guard is NewType* followed by at most one alias *)
-Lemma chain_cases : forall t, chain_ok t = true ->
-  no_wrapper (strip t) = true /\
-  ((exists nm, resolve_supertype t = IAlias nm (strip t)) \/ resolve_supertype t = strip t).
+(* induction over the chain of NewTypes and aliases *)
+Lemma resolve_wrappers_strip : forall t c, head_class T (strip t) = Some c -> resolve_wrappers t = strip t.
 Proof.
-  induction t; intro H;
-    try (unfold chain_ok in H; cbn in H; cbn; split; [exact H || reflexivity | right; reflexivity]).
-  - (* INewType *) unfold chain_ok in *. cbn in *. apply IHt. exact H.
-  - (* IAlias *) unfold chain_ok in H. cbn in H. cbn [strip resolve_supertype].
-    rewrite (strip_no_wrapper _ H). split; [exact H | left; exists nm; reflexivity].
+  induction t; intros c0 H; cbn in *; try reflexivity; try discriminate.
+  - eapply IHt; eassumption.
+  - eapply IHt; eassumption.
+Qed.
+
+Lemma classvar_false : forall t c, head_class T (strip t) = Some c -> isclassvartype t = false.
+Proof.
+  induction t; intros c0 H; cbn in *; try reflexivity; try discriminate.
+  unfold isclassvartype in *. cbn. eapply IHt; eassumption.
 Qed.
 
 (* ------------------------------------------------------------------ origin() on class-like annotations *)
 Lemma origin_newtype : forall nm s, origin T (INewType nm s) = origin T s.
 Proof. reflexivity. Qed.
 
-Lemma origin_head : forall u c, head_class T u = Some c -> origin T u = finish T (IClass c).
+Lemma origin_chain : forall t c, head_class T (strip t) = Some c -> origin T t = finish T (IClass c).
 Proof.
-  intros u c H. destruct u; cbn in H; try discriminate; inversion H; subst; clear H;
-    unfold origin, finish; cbn [resolve_supertype isclassvartype get_origin]; try reflexivity.
+  intros t c Hh. unfold origin. cbv zeta.
+  assert (Hcv : isclassvartype (resolve_supertype t) = false).
+  { unfold isclassvartype. rewrite resolve_idem. exact (classvar_false t c Hh). }
+  rewrite Hcv. rewrite resolve_wrappers_resolve. rewrite (resolve_wrappers_strip t c Hh).
+  destruct (strip t); cbn in Hh; try discriminate; inversion Hh; subst; clear Hh;
+    cbn [get_origin]; try reflexivity.
   destruct (N.eqb c c_Generic); reflexivity.
 Qed.
 
-Lemma origin_alias_head : forall nm v c, head_class T v = Some c ->
-  origin T (IAlias nm v) = finish T (IClass c).
+Lemma resolve_class_head : forall t c, head_class T (strip t) = Some c -> resolve_class T t = IClass c.
 Proof.
-  intros nm v c H. destruct v; cbn in H; try discriminate; inversion H; subst; clear H;
-    unfold origin, finish; cbn [resolve_supertype isclassvartype get_origin]; try reflexivity.
+  intros t c Hh. unfold resolve_class. cbv zeta. rewrite (resolve_wrappers_strip t c Hh).
+  destruct (strip t); cbn in Hh; try discriminate; inversion Hh; subst; clear Hh;
+    cbn [get_origin]; try reflexivity.
   destruct (N.eqb c c_Generic); reflexivity.
-Qed.
-
-(* induction over the wrapper chain *)
-Lemma origin_chain : forall t c, chain_ok t = true -> head_class T (strip t) = Some c ->
-  origin T t = finish T (IClass c).
-Proof.
-  induction t; intros c0 Hc Hh;
-    try (cbn [strip] in Hh; apply origin_head; exact Hh).
-  - rewrite origin_newtype. apply IHt; [exact Hc | exact Hh].
-  - unfold chain_ok in Hc. cbn in Hc. cbn [strip] in Hh. rewrite (strip_no_wrapper _ Hc) in Hh.
-    apply origin_alias_head. exact Hh.
 Qed.
 
 Lemma assoc_ity_in : forall k l v, assoc_ity k l = Some v -> exists k', In (k', v) l.
@@ -64,16 +59,21 @@ Proof.
   - destruct (IH v H) as [k'' Hin]. exists k''. right; exact Hin.
 Qed.
 
+Lemma ity_eqb_class : forall x c, ity_eqb x (IClass c) = true -> x = IClass c.
+Proof. destruct x; cbn; intros c0 H; try discriminate. apply N.eqb_eq in H. subst. reflexivity. Qed.
+Lemma ity_eqb_sunion : forall x, ity_eqb x (ISpecial SUnion) = true -> x = ISpecial SUnion.
+Proof. destruct x; cbn; intro H; try discriminate. destruct s; try discriminate. reflexivity. Qed.
+
 Lemma tables_ok_parts : tables_ok T = true ->
   forallb (fun kv => is_class (snd kv)) (t_generic_map T) = true
   /\ subclass T c_tuple c_tuple = true
   /\ forallb (fun a => negb (N.eqb (snd (snd a)) c_NoneType)) (t_talias T) = true
-  /\ name T (finish T (IClass c_UnionType)) = "UnionType"%string
-  /\ name T (finish T (ISpecial SUnion)) = "Union"%string.
+  /\ finish T (IClass c_UnionType) = IClass c_UnionType
+  /\ finish T (ISpecial SUnion) = ISpecial SUnion.
 Proof.
   unfold tables_ok. intro H.
   repeat (apply andb_prop in H; destruct H as [H ?]).
-  repeat split; try assumption; apply String.eqb_eq; assumption.
+  repeat split; try assumption; [apply ity_eqb_class | apply ity_eqb_sunion]; assumption.
 Qed.
 
 Lemma finish_class : forall c, tables_ok T = true -> finish T (IClass c) = IClass (doc_map T c).
@@ -91,19 +91,10 @@ Proof.
     + cbn [is_class negb]. rewrite andb_false_r. reflexivity.
 Qed.
 
-Lemma origin_resolved : forall t c, tables_ok T = true -> chain_ok t = true ->
+Lemma origin_resolved : forall t c, tables_ok T = true ->
   head_class T (strip t) = Some c -> origin T t = IClass (doc_map T c).
 Proof.
-  intros t c Hok Hc Hh. rewrite (origin_chain t c Hc Hh). apply finish_class; assumption.
-Qed.
-
-(* ------------------------------------------------------------------ the raw family (after the repair) *)
-Lemma resolve_wrappers_strip : forall t c, chain_ok t = true -> strip t = IClass c ->
-  resolve_wrappers t = IClass c.
-Proof.
-  intros t c Hc Hs. destruct (chain_cases t Hc) as [_ [[nm Hr] | Hr]]; unfold resolve_wrappers; rewrite Hr.
-  - exact Hs.
-  - rewrite Hs. reflexivity.
+  intros t c Hok Hh. rewrite (origin_chain t c Hh). apply finish_class; assumption.
 Qed.
 
 (* ------------------------------------------------------------------ agreement with the oracle *)
@@ -111,41 +102,38 @@ Lemma subclass_any_single : forall d b, subclass_any T d [b] = subclass T d b.
 Proof. intros. unfold subclass_any. cbn. apply orb_false_r. Qed.
 
 Theorem agrees : forall p t b, tables_ok T = true ->
-  runtime_says T p t = Some b -> c17_guard T p t = true -> run_pred T p t = Ok b.
+  runtime_says T p t = Some b -> run_pred T p t = Ok b.
 Proof.
-  intros p t b Hok Hsays Hg.
-  unfold runtime_says in Hsays. unfold c17_guard in Hg.
-  apply andb_prop in Hg. destruct Hg as [Hc Hg].
+  intros p t b Hok Hsays.
+  unfold runtime_says in Hsays.
   destruct (family_of p) as [f|] eqn:Hf; [|discriminate].
   unfold resolved_class in *.
   destruct (head_class T (strip t)) as [c|] eqn:Hh; [|destruct f; discriminate].
   destruct (tables_ok_parts Hok) as [_ [Htup _]].
-  assert (Ho : uses_map f = true -> origin T t = IClass (doc_map T c)).
-  { intro Hu. apply origin_resolved; assumption. }
+  pose proof (origin_resolved t c Hok Hh) as Ho.
+  pose proof (resolve_class_head t c Hh) as Hr.
   destruct p; cbn in Hf; try discriminate; inversion Hf; subst f; clear Hf;
     cbn [uses_map] in *; inversion Hsays; subst b; clear Hsays;
     unfold run_pred; cbn [origin_family_bases origin_family_tp raw_family_bases];
-    try (unfold via_origin; rewrite (Ho eq_refl); reflexivity);
-    try (unfold via_origin_tp; rewrite (Ho eq_refl); reflexivity);
-    try (unfold core_is_class in Hg; destruct (strip t) eqn:Hs; try discriminate;
-         cbn in Hh; inversion Hh; subst;
-         rewrite (resolve_wrappers_strip t _ Hc Hs); reflexivity).
-  - (* istupletype *) unfold istupletype. rewrite (Ho eq_refl). cbn [ity_eqb says].
+    try (unfold via_origin; rewrite Ho; reflexivity);
+    try (unfold via_origin_tp; rewrite Ho; reflexivity);
+    try (rewrite Hr; reflexivity).
+  - (* istupletype *) unfold istupletype. rewrite Ho. cbn [ity_eqb says].
     destruct (N.eqb (doc_map T c) c_tuple) eqn:He.
     + apply N.eqb_eq in He. rewrite He. rewrite Htup. reflexivity.
     + reflexivity.
-  - (* issequencetype *) unfold issequencetype. rewrite (Ho eq_refl). cbn [in_collections says].
+  - (* issequencetype *) unfold issequencetype. rewrite Ho. cbn [in_collections says].
     destruct (memN (doc_map T c) (t_collections T)); reflexivity.
-  - (* iscollectiontype *) unfold iscollectiontype. rewrite (Ho eq_refl). cbn [in_collections says].
+  - (* iscollectiontype *) unfold iscollectiontype. rewrite Ho. cbn [in_collections says].
     destruct (memN (doc_map T c) (t_collections T)); reflexivity.
-  - (* ismappingtype *) unfold ismappingtype. rewrite (Ho eq_refl). cbn [issubclass_raw issubclass_tp says].
+  - (* ismappingtype *) unfold ismappingtype. rewrite Ho. cbn [issubclass_raw issubclass_tp says].
     destruct (subclass_any T (doc_map T c) (t_mapping_types T)); reflexivity.
 Qed.
 
-Theorem total : forall p t, tables_ok T = true -> in_domain T p t = true -> c17_guard T p t = true ->
+Theorem total : forall p t, tables_ok T = true -> in_domain T p t = true ->
   exists b, run_pred T p t = Ok b.
 Proof.
-  intros p t Hok Hd Hg. unfold in_domain in Hd.
+  intros p t Hok Hd. unfold in_domain in Hd.
   destruct (runtime_says T p t) as [b|] eqn:Hs; [|discriminate].
   exists b. apply agrees; assumption.
 Qed.
@@ -159,13 +147,13 @@ Proof.
   - right. apply IH. exact H.
 Qed.
 
-Theorem origin_concrete : forall t c, tables_ok T = true -> chain_ok t = true ->
+Theorem origin_concrete : forall t c, tables_ok T = true ->
   head_class T (strip t) = Some c -> subclass T c c_Collection = true ->
   ~ In c (abstract_unmapped T) ->
   origin T t = IClass (doc_map T c)
   /\ is_abstract_cls T (doc_map T c) = false /\ same_kind T (doc_map T c) c = true.
 Proof.
-  intros t c Hok Hc Hh Hcol Hnot. split; [apply origin_resolved; assumption|].
+  intros t c Hok Hh Hcol Hnot. split; [apply origin_resolved; assumption|].
   assert (Hin : exists i, In (c, i) (t_cls T)).
   { unfold subclass, cinfo in Hcol. destruct (assocN c (t_cls T)) as [i|] eqn:Ha; [|discriminate].
     exists i. apply assocN_in. exact Ha. }
@@ -178,35 +166,33 @@ Proof.
 Qed.
 
 (* ------------------------------------------------------------------ independence of spelling *)
-Theorem spelling_origin : forall a b c, spell T a b -> chain_ok a = true ->
-  head_class T (strip a) = Some c -> origin T a = origin T b.
+Lemma spell_head : forall a b c, spell T a b -> head_class T (strip a) = Some c ->
+  head_class T (strip b) = Some c.
 Proof.
-  intros a b c Hsp. revert c. induction Hsp; intros c Hc Hh.
-  - reflexivity.
-  - cbn [strip] in Hh. rewrite (origin_head _ _ Hh).
-    symmetry. apply origin_head. cbn in *. exact Hh.
-  - cbn [strip] in Hh. rewrite (origin_head _ _ Hh).
-    symmetry. apply origin_head. cbn in *. exact Hh.
-  - cbn in Hh. discriminate.
-  - rewrite !origin_newtype. apply (IHHsp c); [exact Hc | exact Hh].
-  - unfold chain_ok in Hc. cbn in Hc. cbn [strip] in Hh. rewrite (strip_no_wrapper _ Hc) in Hh.
-    rewrite (origin_alias_head nm v c Hh).
-    inversion Hsp; subst; cbn in Hc; try discriminate; cbn in Hh; try discriminate.
-    + symmetry. apply origin_alias_head. exact Hh.
-    + symmetry. apply origin_alias_head. cbn in *. exact Hh.
-    + symmetry. apply origin_alias_head. cbn in *. exact Hh.
+  intros a b c Hsp. revert c. induction Hsp; intros c Hh; cbn in *; try assumption; try discriminate.
+  - apply IHHsp. exact Hh.
+  - apply IHHsp. exact Hh.
 Qed.
 
-Theorem spelling_pred : forall p f a b c, spell T a b -> chain_ok a = true ->
-  head_class T (strip a) = Some c -> family_of p = Some f -> uses_map f = true ->
+Theorem spelling_origin : forall a b c, spell T a b ->
+  head_class T (strip a) = Some c -> origin T a = origin T b.
+Proof.
+  intros a b c Hsp Hh.
+  rewrite (origin_chain a c Hh). symmetry. apply origin_chain. exact (spell_head a b c Hsp Hh).
+Qed.
+
+Theorem spelling_pred : forall p f a b c, spell T a b ->
+  head_class T (strip a) = Some c -> family_of p = Some f ->
   run_pred T p a = run_pred T p b.
 Proof.
-  intros p f a b c Hsp Hc Hh Hf Hu.
-  pose proof (spelling_origin a b c Hsp Hc Hh) as Ho.
-  destruct p; cbn in Hf; try discriminate; inversion Hf; subst f; try discriminate;
+  intros p f a b c Hsp Hh Hf.
+  pose proof (spelling_origin a b c Hsp Hh) as Ho.
+  pose proof (resolve_class_head a c Hh) as Ha.
+  pose proof (resolve_class_head b c (spell_head a b c Hsp Hh)) as Hb.
+  destruct p; cbn in Hf; try discriminate;
     unfold run_pred; cbn [origin_family_bases origin_family_tp raw_family_bases];
     unfold via_origin, via_origin_tp, istupletype, issequencetype, iscollectiontype, ismappingtype;
-    rewrite Ho; reflexivity.
+    try (rewrite Ho; reflexivity); rewrite Ha, Hb; reflexivity.
 Qed.
 
 (* unions: typing.Union / Optional / X | Y *)
@@ -235,8 +221,8 @@ Proof.
   cbn. rewrite (spell_nullarg Hok _ _ H). rewrite IHForall2. reflexivity.
 Qed.
 
-Lemma union_name : tables_ok T = true -> forall s l,
-  name T (origin T (IUnion s l)) = match s with UPipe => "UnionType"%string | _ => "Union"%string end.
+Lemma union_origin : tables_ok T = true -> forall s l,
+  origin T (IUnion s l) = match s with UPipe => IClass c_UnionType | _ => ISpecial SUnion end.
 Proof.
   intros Hok s l. destruct (tables_ok_parts Hok) as [_ [_ [_ [H1 H2]]]].
   rewrite origin_union. destruct s; assumption.
@@ -248,9 +234,9 @@ Theorem spelling_union : tables_ok T = true -> forall s s' l l', Forall2 (spell 
 Proof.
   intros Hok s s' l l' Hl.
   assert (Hu : forall sp args, isuniontype T (IUnion sp args) = true).
-  { intros sp args. unfold isuniontype. rewrite (union_name Hok). destruct sp; reflexivity. }
+  { intros sp args. unfold isuniontype. rewrite (union_origin Hok). destruct sp; reflexivity. }
   assert (Hopt : forall sp args, isoptionaltype T (IUnion sp args) = existsb is_nullarg args).
-  { intros sp args. unfold isoptionaltype. rewrite (union_name Hok). cbn [dunder_args].
+  { intros sp args. unfold isoptionaltype. cbv zeta. rewrite (union_origin Hok). cbn [dunder_args].
     destruct sp; cbn; destruct (existsb is_nullarg args); reflexivity. }
   repeat split; try apply Hu. rewrite !Hopt. apply exists_nullarg; assumption.
 Qed.
